@@ -551,3 +551,51 @@ M('c11-render-body-bare-type', 'C11', 'R7', 'falcon/response.py', _ARGS,
 # `opts = self.options; handlers = opts.media_handlers; handlers._resolve(self.content_type, opts.default_media_type)`;
 # keyword arguments in another order; a transformation of the local AFTER the call.  Unknown idioms (exit 2, no
 # violation): `self.content_type or <default>`, `.strip()` alone, `self.get_header('Content-Type')`.
+
+# ----------------------------------------------------------------------- R1 (dict views; seeded s6-c11-3)
+# the frozensets replaced by dict views; the exact flag becomes a ONE-WAY inclusion of the items (subset instead of equality)
+_PSETS = """        mr_pnames = frozenset(self.params)
+        mt_pnames = frozenset(media_type.params)
+
+        exact_match = 0 if mr_pnames ^ mt_pnames else 1
+
+        matching = mr_pnames & mt_pnames
+        for pname in matching:
+            if self.params[pname] != media_type.params[pname]:
+                return self._NOT_MATCHING
+"""
+_PVIEWS = """        mr_params = self.params
+        mt_params = media_type.params
+
+        matching = mr_params.keys() & mt_params.keys()
+        for pname in matching:
+            if mr_params[pname] != mt_params[pname]:
+                return self._NOT_MATCHING
+
+        exact_match = %s
+"""
+M('c11-exact-items-subset', 'C11', 'R1', MT, _PSETS, _PVIEWS % "int(mr_params.items() <= mt_params.items())")
+M('c11-exact-items-superset', 'C11', 'R1', MT, _PSETS, _PVIEWS % "1 if mr_params.items() >= mt_params.items() else 0")
+M('c11-exact-keys-view-subset', 'C11', 'R1', MT, _PSETS, _PVIEWS % "int(not (mr_params.keys() - mt_params.keys()))")
+M('c11-exact-items-disjoint', 'C11', 'R1', MT, _PSETS, _PVIEWS % "int(not mr_params.items().isdisjoint(mt_params.items()))")
+# negative controls verified by hand with --root (silent): `int(mr_params.items() == mt_params.items())`,
+# `int(self.params == media_type.params)`, `int(mr_params.keys() == mt_params.keys())`, `int(not (mr_params.items() ^ mt_params.items()))`
+
+# ----------------------------------------------------------------------- R10 (one case form; seeded s6-c11-1)
+_ACC = "        accept = self.accept\n\n        # PERF(kgriffs): Usually the following will be true, so\n"
+M2('c11-accept-lowered-both-methods', 'C11', 'R10', [
+    {'file': RQ, 'old': _ACC, 'new': _ACC.replace("self.accept\n", "self.accept.lower()\n")},
+    {'file': RQ, 'old': "            preferred_type = mediatypes.best_match(media_types, self.accept)\n",
+     'new': "            preferred_type = mediatypes.best_match(media_types, self.accept.lower())\n"}])
+M('c11-accepts-header-casefold-inline', 'C11', 'R10', RQ,
+  "            return mediatypes.quality(media_type, accept) != 0.0\n",
+  "            return mediatypes.quality(media_type, accept.casefold()) != 0.0\n")
+M('c11-accepts-candidate-lowered-only', 'C11', 'R10', RQ,
+  "            return mediatypes.quality(media_type, accept) != 0.0\n",
+  "            return mediatypes.quality(media_type.lower(), accept) != 0.0\n")
+M('c11-prefers-candidates-lowered-only', 'C11', 'R10', RQ,
+  "            preferred_type = mediatypes.best_match(media_types, self.accept)\n",
+  "            preferred_type = mediatypes.best_match([t.lower() for t in media_types], self.accept)\n")
+M('c11-accepts-parameter-rebound-lowered', 'C11', 'R10', RQ, _ACC, "        media_type = media_type.lower()\n" + _ACC)
+# unknown idiom (exit 2, no violation), verified by hand: both sides folded the same way (parameter values would be
+# compared case-insensitively - not decided)
